@@ -16,7 +16,6 @@ func init() {
 	props["C01"] = propC01
 	props["C02"] = propC02
 	props["C06"] = propC06
-	props["C17"] = propC17
 }
 
 func allSuites() []suite {
